@@ -36,7 +36,8 @@ func Replay(c *vf.Check, path string) {
 		}
 		sc := srcCase{Fam: str(cs["family"]), Prog: arr(cs["prog"]), Tape: cs["tape"], Ideal: ideal, Same: true}
 		js := canon(sc.Prog)
-		o := srcOpts{Budget: 60, Deleg: true, Opt: true, Box: contains(js, `"k":"fresh"`), GG: contains(js, `"k":"ygen"`)}
+		o := srcOpts{Budget: 60, Deleg: true, Opt: true, Box: contains(js, `"k":"fresh"`), GG: contains(js, `"k":"ygen"`),
+			BoxVal: str(cs["family"]) == "F_boxv", BoxMap: str(cs["family"]) == "F_boxm"}
 		run := runSrcFamilyCalls(c, []srcCase{sc}, o)
 		if run.Status[0] != "" {
 			fmt.Println("the compiler fails on this program now:", run.Status[0])
